@@ -183,7 +183,7 @@ func c02Model(h *HistSys, hist []Op, w *world.World) (*Finding, string) {
 					}
 				}
 			}
-		case "sched", "schedcf":
+		case "sched", "schedcf", "schedlost":
 			if o.Err != "" || len(o.IPs) == 0 {
 				break
 			}
